@@ -60,12 +60,12 @@ CHECKS = {
         design="DESIGN.md 6 C08"),
     "C09": dict(
         technique="Coq proof (swap of first-occurrence columns for duplicate-free minus names = strand-aware view, induction over the name list) + _swap_strand_vals / _index_of_gene / DensityData.__init__ translated from /repo on every run and proved equal to the model + column-by-column comparison on real files",
-        text="Theorems c09_view/defined/minus/plus_or_unstranded/intra; c09_code_swap_loop: the exchange loop of the code, as translated, is the model's swap_all; result files x strand mixtures (all +, all -, '.', mixed, shuffled rows) x every constructor (incl. a GeneData in another row order), "
+        text="Theorems c09_view/defined/minus/plus_or_unstranded/intra; c09_code_swap_loop: the exchange loop of the code, as translated, is the model's swap_all; c09_code_view (Props/C09code.v): the first load through the translated constructor serves exactly the raw columns with left and right exchanged for the minus-strand genes, leaves the raw file as it was and publishes that view as the trusted copy; result files x strand mixtures (all +, all -, '.', mixed, shuffled rows) x every constructor (incl. a GeneData in another row order), "
              "each gene column of both TE levels classified against the raw arrays and compared with the model; raw file hashed before/after.",
         design="DESIGN.md 6 C09"),
     "C10": dict(
-        technique="Coq proof (steps on distinct paths commute; tasks assigning disjoint cells commute under Permutation; sorted-set name axes; totality of the run) + differential execution over schedules",
-        text="Theorems c10_jobs_commute/job_local/tasks_perm/names_perm/names_ext/total; each input through the real library stages with merge jobs in sorted/reversed/shuffled order and several seeds of Python's random, "
+        technique="Coq proof (steps on distinct paths commute; tasks assigning disjoint cells commute under Permutation; sorted-set name axes; totality of the run) + MergeData.sum translated from /repo on every run with the order of its six summations a parameter: every order gives the same labelled cells + differential execution over schedules",
+        text="Theorems c10_jobs_commute/job_local/tasks_perm/names_perm/names_ext/total; c10_code_order_free (Props/C14code.v): on the data of any file of a successful model run, the arrays the translated summation leaves under ANY two orders containing the six summations (random.shuffle in the code) give the same cell for every lookup by labels; each input through the real library stages with merge jobs in sorted/reversed/shuffled order and several seeds of Python's random, "
              "and through the CLI with -n 1/2/4/16, --single_process, hash seeds, under CPU load; all runs must complete with identical names, labels and values. "
              "The OS scheduling of real processes cannot be exhibited by the model: the CLI part is exploration (stated in the evidence).",
         design="DESIGN.md 6 C10"),
@@ -104,7 +104,7 @@ CHECKS = {
         technique="Coq proof (the data-path model uses names only under equality: injective renamings commute with the run; first run vs re-run from the cache model) + renaming pools through the real command line, twice per directory",
         text="Theorems c14_rename/verbatim/same_outcome over Model/Pipeline.v for ALL injective renamings of chromosomes, genes, orders, superfamilies avoiding the reserved labels (numeric-looking, case-differing, non-ASCII names are just other values), "
              "and c14_first_run/first_vs_rerun over Model/Cache.v. Tie: name pools (numeric-looking incl. '007'/'7'/'1e3', case families, non-ASCII, blanks/punctuation/quotes, boolean- and NA-looking words, prefix families) applied per category and together; "
-             "renamed pair run twice in one directory through the CLI: first run vs re-run (exit, labels, values), renamed vs original through the inverse renaming, labels verbatim, model on the renamed pair.",
+             "c14_code_rename (Props/C14code.v): the arrays the translated overlap loop and summation compute for the renamed pair, looked up by the renamed labels through the translated lookup, hold the numbers of the original pair under the original labels, for all such renamings and any orders of the six summations. Renamed pair run twice in one directory through the CLI: first run vs re-run (exit, labels, values), renamed vs original through the inverse renaming, labels verbatim, model on the renamed pair.",
         design="DESIGN.md 6 C14"),
     "C15": dict(
         technique="Coq proof (invariant of the load/crash state machine over all histories) + DensityData.__init__ / verify_h5_cache translated from /repo on every run over symbolic file names and proved to act and serve as the model's load + histories with kills, exceptions and interleaved loads on real files",
